@@ -7,6 +7,7 @@ TRUSTED = [
     "hand-written model Model/Gates.v tied to operator.rs by this correspondence run (harness + in-Coq verdict)",
     "libm cos/sin values are inputs computed by the harness; rounding is not modelled (1e-12 tolerance)",
     "harness crate /verif/harness and the case generator; OpenCL branch is C17",
+    "registers of 12..16 qubits: the crate is compared with a direct embedding of the defining matrix written in the harness (Rust), outside Coq - the model's evaluation is quadratic in the vector length",
 ]
 
 def gen_cases(ctx):
@@ -118,6 +119,46 @@ def gen_cases(ctx):
             cases.append(mk_case(kind, rand_params(rng, kind), n, ts, cs, rand_vec(rng, n, "generic"), 10))
     return cases
 
+def gen_big(ctx):
+    """registers of 12..15 (16) qubits: the crate against the harness' direct embedding of the defining matrix (not evaluated in Coq)"""
+    rng = ctx.rng
+    out = []
+    sizes = (12, 13, 14) if not ctx.thorough() else (12, 13, 14, 15, 16)
+    for kind in KINDS:
+        for n in sizes:
+            for hi_role in ("target", "control", "low"):
+                top = rng.choice([n - 1, n - 2, 11])
+                qs = [q for q in range(n) if q != top]; rng.shuffle(qs)
+                if kind == "SWAP": ts = [top, qs[0]] if hi_role == "target" else [qs[0], qs[1]]
+                elif kind == "Match":
+                    t = top - 1 if hi_role == "target" else rng.randrange(0, 6)
+                    ts = [t]
+                else: ts = [top] if hi_role == "target" else [qs[0]]
+                used = set(ts) | ({ts[0] + 1} if kind == "Match" else set())
+                free = [q for q in range(n) if q not in used]
+                k = 1 if kind == "CNOT" else 2 if kind == "Toffoli" else rng.choice([0, 1, 2])
+                cs = rng.sample(free, k)
+                if hi_role == "control" and k and top in free: cs[0] = top; cs = list(dict.fromkeys(cs))
+                if kind == "Toffoli" and len(cs) < 2: cs = rng.sample(free, 2)
+                if rng.random() < 0.5 and len(ts) == 2: ts = ts[::-1]
+                c = {"op": "gate_big", "kind": kind, "params": rand_params(rng, kind), "n": n, "ts": ts, "cs": cs, "seed": rng.randrange(1 << 30)}
+                if rng.random() < 0.3: c["pool"] = rng.choice([3, 5, 6])
+                out.append(c)
+    return out
+
+def judge_big(ctx, cases, results, stats):
+    st = {"cases": len(cases), "ok": 0}
+    for c, r in zip(cases, results):
+        d = {"kind": c["kind"], "n": c["n"], "targets": c["ts"], "controls": c["cs"], "params": [bits2float(p) for p in c["params"]], "pool": c.get("pool")}
+        if r.get("r") == "ok" and r.get("maxdiff") is not None and r["maxdiff"] == r["maxdiff"] and r["maxdiff"] <= 1e-12 and r["len"] == (1 << c["n"]) and r["nq"] == c["n"]:
+            st["ok"] += 1
+        elif r.get("r") == "ctor_err": continue
+        else:
+            ctx.violations.append(("on a %d-qubit register the result differs from the embedded defining matrix (amplitude %s: %s, expected %s; max difference %s)%s" % (
+                c["n"], r.get("at"), r.get("impl_at"), r.get("want_at"), r.get("maxdiff"), "" if r.get("r") == "ok" else " - outcome %s %s" % (r.get("r"), r.get("e", r.get("msg", "")))),
+                {"big_case": c, "describe": d, "impl": {k: r.get(k) for k in ("r", "e", "msg", "maxdiff", "at")}}))
+    stats["large_registers"] = st
+
 def judge(ctx, cases, results, codes):
     """returns (n_ok, stats); records violations"""
     stats = {"agree_class": 0, "model_close": 0, "model_exact": 0, "spec_close": 0, "ctor_err": 0}
@@ -156,6 +197,8 @@ def run(ctx):
     cases = gen_cases(ctx)
     results, codes = run_cases(ctx, cases)
     stats = judge(ctx, cases, results, codes)
+    big = gen_big(ctx)
+    judge_big(ctx, big, run_harness(big, nproc=8), stats)
     dist = {}
     for c in cases:
         key = "%s/n%d/%s" % (c["kind"], c["n"], "par" if c["n"] >= c["thr"] else "seq")
@@ -168,7 +211,7 @@ def run(ctx):
     ctx.broken = ctx.broken[:5]
     return finish(ctx, trusted=TRUSTED, evaluations=len(cases), nontrivial=distinct,
                   rule="exhaustive placements (target x control subset, shuffled control order) for n=1..4 x 20 gate kinds x {seq,par}; "
-                       "random placements n=5..8 both paths; n=9..10(12) on the real threshold; distinct = distinct (kind,n,targets,controls,path); "
+                       "random placements n=5..8 both paths; n=9..10(12) on the real threshold; registers of 12..14(16) qubits against the harness' direct embedding of the defining matrix (not in Coq); distinct = distinct (kind,n,targets,controls,path); "
                        "all are non-trivial (random complex amplitudes)",
                   samples=[dict(describe(c), verdict_bits=k) for c, k in list(zip(cases, codes))[:3] + list(zip(cases, codes))[-2:]],
                   extra={"verdict_counts": stats, "cases_by_kind": by_kind, "threshold_hook_branch_hits": path_hits,
@@ -176,6 +219,10 @@ def run(ctx):
 
 def replay(ctx, path):
     body = json.load(open(path))
+    if body["replay"].get("big_case"):
+        r = run_harness([body["replay"]["big_case"]])[0]
+        print(json.dumps({"describe": body["replay"].get("describe"), "impl": r}, indent=1))
+        return 0 if (r.get("r") == "ok" and r.get("maxdiff", 1) <= 1e-12) else 1
     case = body["replay"].get("case")
     if not case:
         print("replay file carries no concrete case:", body["what"]); return 1
